@@ -264,6 +264,7 @@ pub fn parse_module(mut parser: SourceParser) -> Module<()> {
     );
     associated_comments.append(&mut parser.assert_and_consume_operator(TokenOp::RightBrace).1);
     associated_comments.append(&mut parser.assert_and_consume_keyword(Keyword::From).1);
+    let from_loc = parser.last_location;
     let import_loc_start = parser.peek().0;
     // End of the module name. `parser.last_location` cannot be used for it after the loop below: peeking
     // for a `.` has already moved it over the comments that follow the import.
@@ -288,8 +289,12 @@ pub fn parse_module(mut parser: SourceParser) -> Module<()> {
       collector
     };
     let imported_module = parser.heap.alloc_module_reference(imported_module_parts);
-    let imported_module_loc =
-      import_loc_start.union(&module_name_end.unwrap_or(parser.last_location));
+    // Without a module name nothing was consumed after `from`: the token peeked above belongs to
+    // whatever follows the import.
+    let imported_module_loc = match module_name_end {
+      Some(module_name_end) => import_loc_start.union(&module_name_end),
+      None => from_loc,
+    };
     for variable in imported_members.iter() {
       parser.class_source_map.insert(variable.name, imported_module);
     }
